@@ -17,7 +17,8 @@ PARTIAL = (' The statements are about the executable Lean model; the model is ti
 
 CLAIMED = {
     'C01': dict(text='Proved for every tree / Cfg: C01_roundtrip, C01_reflatten, C01_machine, C01_flatten_sane (unflatten inverts flatten exactly; '
-                     'mutual structural induction, no size bound). Replacement-leaves and wrong-leaf-count clauses: implementation oracle only.' + PARTIAL,
+                     'mutual structural induction, no size bound), C01_leaf_count (any list of exactly num_leaves replacement leaves is accepted, '
+                     'every other length is a ValueError). That the replacement leaves come back from a re-flatten: implementation oracle only.' + PARTIAL,
                 technique='Lean 4 proof (mutual structural induction) + correspondence', ref='6 C01'),
     'C02': dict(text='Proved: C02_leaf_order (flatten leaves = documented order leavesOf, all trees/configs), C02_none_filter, C02_pred_refines, '
                      'C02_sort_perm / C02_sort_fallback, classification lemmas C02_kind_*, C02_pred_first. Dict-insertion-order irrelevance '
